@@ -30,6 +30,7 @@ package main
 // that mapping and this translator are part of the trusted base.
 
 import (
+	"path/filepath"
 	"fmt"
 	"go/ast"
 	"go/constant"
@@ -143,7 +144,7 @@ func (t *fnTr) kindOfType(ty types.Type) string {
 		if strings.HasPrefix(k, "rec:") {
 			return k
 		}
-		if k == "vlist" || k == "int" || k == "strs" || k == "str" || strings.HasPrefix(k, "recs:") {
+		if k == "vlist" || k == "int" || k == "strs" || k == "str" || k == "bmap" || strings.HasPrefix(k, "recs:") {
 			return "ptr:" + k // an out-parameter: threaded as state (as a result type: the pointee)
 		}
 		return "tok"
@@ -1277,6 +1278,8 @@ func (t *fnTr) assigned(list []ast.Stmt) []*lvar {
 		case *ast.IndexExpr:
 			if ta, ok := unparen(l.X).(*ast.TypeAssertExpr); ok {
 				add(t.lvarOf(ta.X))
+			} else if se, ok := unparen(l.X).(*ast.StarExpr); ok {
+				add(t.lvarOf(se.X))
 			} else if id, ok := l.X.(*ast.Ident); ok {
 				if lv, ok := t.locals[t.p.info.Uses[id]]; ok {
 					add(lv)
@@ -1681,7 +1684,7 @@ func (t *fnTr) retExpr(x *ast.ReturnStmt) string {
 			// return self(...): the recursive call's results (and state) are this call's
 			mark := len(t.guards)
 			args := t.selfArgs(c)
-			return t.wrap(mark, "bindr (fn_"+t.self.Name()+" fuel_ st "+strings.Join(args, " ")+") (fun r_ => Ret r_)")
+			return t.wrap(mark, "bindr ("+fnPrefix+t.self.Name()+" fuel_ st "+strings.Join(args, " ")+") (fun r_ => Ret r_)")
 		}
 	}
 	if len(t.resKind) == 2 && t.resKind[1] == "err" && len(x.Results) == 1 {
@@ -1900,7 +1903,7 @@ func (t *fnTr) stmts(list []ast.Stmt, end func() string) string {
 				args = append(args, t.expr(a))
 			}
 		}
-		return t.wrap(mark, "bindr (fn_"+t.self.Name()+" fuel_ st "+strings.Join(args, " ")+")\n  (fun "+tuplePat(t.state)+" => "+next()+")")
+		return t.wrap(mark, "bindr ("+fnPrefix+t.self.Name()+" fuel_ st "+strings.Join(args, " ")+")\n  (fun "+tuplePat(t.state)+" => "+next()+")")
 	}
 	t.unsupported(s, fmt.Sprintf("statement %T", s))
 	return ""
@@ -2035,14 +2038,14 @@ func (t *fnTr) assign(x *ast.AssignStmt, next func() string) string {
 				if len(t.state) > 0 {
 					rp = "'((" + va + ", " + vb + "), " + tupleVal(t.state) + ")"
 				}
-				return t.wrap(mark, "bindr (fn_"+t.self.Name()+" fuel_ st "+strings.Join(args, " ")+")\n  (fun "+rp+" =>\n  "+next()+")")
+				return t.wrap(mark, "bindr ("+fnPrefix+t.self.Name()+" fuel_ st "+strings.Join(args, " ")+")\n  (fun "+rp+" =>\n  "+next()+")")
 			}
 			z := fnZero(t.resKind[0])
 			rpat := "rr_"
 			if len(t.state) > 0 {
 				rpat = "'(rr_, " + tupleVal(t.state) + ")"
 			}
-			return t.wrap(mark, "bindr (fn_"+t.self.Name()+" fuel_ st "+strings.Join(args, " ")+")\n  (fun "+rpat+" => match rr_ with Panic => Crash | _ => let '("+va+", "+vb+") := match rr_ with Ok v => (v, None) | Err e => ("+z+", Some e) | Panic => ("+z+", None) end in\n  "+next()+" end)")
+			return t.wrap(mark, "bindr ("+fnPrefix+t.self.Name()+" fuel_ st "+strings.Join(args, " ")+")\n  (fun "+rpat+" => match rr_ with Panic => Crash | _ => let '("+va+", "+vb+") := match rr_ with Ok v => (v, None) | Err e => ("+z+", Some e) | Panic => ("+z+", None) end in\n  "+next()+" end)")
 		}
 		// v, err := f(...) with f another function of the package returning (T, error)
 		if c, isCall := x.Rhs[0].(*ast.CallExpr); isCall {
@@ -2239,6 +2242,17 @@ func (t *fnTr) assign(x *ast.AssignStmt, next func() string) string {
 	case *ast.IndexExpr: // m[k] = e on a local map
 		if ta, isTA := unparen(l.X).(*ast.TypeAssertExpr); isTA && ta.Type != nil {
 			return t.storeThroughAssert(x, l, ta, next)
+		}
+		if se, isStar := unparen(l.X).(*ast.StarExpr); isStar {
+			// (*p)[k] = b on a *map[string]bool out-parameter
+			pl := t.lvarOf(se.X)
+			if pl == nil || pl.kind != "ptr:bmap" {
+				t.unsupported(x, "store through a pointer other than a *map[string]bool out-parameter")
+			}
+			mark := len(t.guards)
+			k := t.expr(l.Index)
+			v := t.expr(x.Rhs[0])
+			return t.wrap(mark, "let "+pl.name+" := bset "+k+" "+v+" "+pl.name+" in\n  "+next())
 		}
 		id, ok := l.X.(*ast.Ident)
 		if !ok {
@@ -3153,6 +3167,19 @@ func constTable(p *pkgInfo, vs *ast.ValueSpec, i int) (string, bool) {
 var pureFuncs = []string{"cast", "escapeChars", "parsePath", "getSubKeyMap", "hasSubKeys", "Map.PathForKeyShortest", "valuesForKeyPath", "hasKey", "hasKeyPath", "getLeafNodes",
 	"Map.ValuesForKey", "Map.oldValuesForPath", "Map.ValuesForPath", "Map.LeafNodes", "getJson", "NewMapJsonReader", "NewMapJsonReaderRaw", "Map.Exists", "Map.ValueForPath", "Map.ValueForKey", "Map.LeafPaths", "Map.LeafValues", "valuesForArray", "Map.PathsForKey", "byteReader.ReadByte", "teeReader.ReadByte", "Maps.JsonString", "Maps.JsonStringIndent", "Maps.XmlString", "Maps.XmlStringIndent", "BeautifyXml", "Map.Copy", "Map.Json", "Map.Root", "NewMapXml", "NewMapXmlSeq", "lastKey", "xmlToMapParser", "xmlSeqToMapParser", "Map.JsonWriter", "Map.JsonWriterRaw", "Map.JsonIndentWriter", "Map.JsonIndentWriterRaw", "Map.XmlWriter", "Map.XmlIndentWriter", "MapSeq.XmlWriter", "MapSeq.XmlIndentWriter"}
 
+// fnPrefix: the prefix of the Gallina names of translated functions ("fn_" for package mxj, "xfn_" for x2j-wrapper)
+var fnPrefix = "fn_"
+
+// the functions of package x2j-wrapper translated into PureX2j_gen.v: its own tree walkers (C20)
+var pureX2jFuncs = []string{"hasKey", "ValuesForKey", "hasKeyPath", "PathsForKey", "PathForKeyShortest", "valuesFromKeyPath", "ValuesFromKeyPath", "ValuesAtKeyPath"}
+
+func genPureX2j(core, p *pkgInfo) string {
+	savedF, savedP := pureFuncs, fnPrefix
+	pureFuncs, fnPrefix = pureX2jFuncs, "xfn_"
+	defer func() { pureFuncs, fnPrefix = savedF, savedP }()
+	return genPure(p)
+}
+
 func genPure(p *pkgInfo) string {
 	vars, _ := pkgVars(p)
 	byObj := map[types.Object]*gvar{}
@@ -3161,7 +3188,7 @@ func genPure(p *pkgInfo) string {
 	}
 	var sb strings.Builder
 	sb.WriteString("(* GENERATED by /verif/translator (go2v pure) from the current sources of /repo - do not edit.\n")
-	sb.WriteString("   Functions of package mxj translated statement by statement (scheme and fragment: translator/pure.go;\n")
+	sb.WriteString("   Functions of package " + p.name + " (" + filepath.Base(p.dir) + ") translated statement by statement (scheme and fragment: translator/pure.go;\n")
 	sb.WriteString("   vocabulary: Gen/PureSupport.v).  Crash = a run-time panic. *)\n")
 	sb.WriteString("From Mxj Require Import Base.Str Base.Value Gen.GenSupport Gen.Setters_gen Gen.PureSupport.\nLocal Open Scope string_scope.\n\n")
 
@@ -3420,10 +3447,10 @@ func genPure(p *pkgInfo) string {
 			}
 			if t.recurs {
 				// recursion on explicit fuel: running out of fuel is a Crash, excluded by the theorems' fuel hypothesis
-				fmt.Fprintf(&bodies, "(* %s: func %s (recursive: fuel) *)\nFixpoint fn_%s (fuel : nat) (st : gstate)%s {struct fuel} : ctl unit %s :=\n  match fuel with\n  | O => Crash\n  | S fuel_ =>\n  %s\n  end.\n\n",
+				fmt.Fprintf(&bodies, "(* %s: func %s (recursive: fuel) *)\nFixpoint "+fnPrefix+"%s (fuel : nat) (st : gstate)%s {struct fuel} : ctl unit %s :=\n  match fuel with\n  | O => Crash\n  | S fuel_ =>\n  %s\n  end.\n\n",
 					where, qname, defName, params, t.resultType(), body)
 			} else {
-				fmt.Fprintf(&bodies, "(* %s: func %s *)\nDefinition fn_%s (st : gstate)%s : ctl unit %s :=\n  %s.\n\n",
+				fmt.Fprintf(&bodies, "(* %s: func %s *)\nDefinition "+fnPrefix+"%s (st : gstate)%s : ctl unit %s :=\n  %s.\n\n",
 					where, qname, defName, params, t.resultType(), body)
 			}
 		}
